@@ -85,7 +85,7 @@ def _describe(rep, tier: str, info: Dict[str, Any]) -> None:
              "or an inner nonterminal); up to 10 solve() calls per object; a case is non-trivial iff a constraint is "
              "present (otherwise only closedness/validity/membership are checked)")
     rep.rule("quick: every template once with a seed-drawn grid point plus seed-drawn templates with default settings; "
-             "thorough: every template with default settings, 40 seed-drawn distinct grid points and a pairwise cover "
+             "thorough: every template with default settings, 30 seed-drawn distinct grid points and a pairwise cover "
              "of the settings grid")
     rep.bound(f"{info['templates']} templates over 11 grammars, settings grid of {info['grid_points']} points "
               f"(full product {info['full_grid_solver_objects']} solver objects, NOT enumerated: {info['selected']} "
@@ -105,7 +105,7 @@ def _describe(rep, tier: str, info: Dict[str, Any]) -> None:
 def run(rep, tier: str, seed: int) -> None:
     t0 = time.time()
     _sanity(rep)
-    cases, info = cc.select_cases(tier, seed, salt="C01", quick_total=190)
+    cases, info = cc.select_cases(tier, seed, salt="C01", quick_total=172)
     _describe(rep, tier, info)
     rep.exhaustive = False
     results = cc.run_cases(cases, n_procs=16)
